@@ -4,7 +4,7 @@
 //
 //	(0 ctor ops)   deque history.  ctor = () zero value | (c m) NewDeque(c, m);
 //	               op = (0 v) PushBack | (1 v) PushFront | (2) PopFront | (3) PopBack | (4) Front |
-//	                    (5) Back | (6 i) At | (7 i v) Set | (8) Clear | (9 n) Rotate
+//	                    (5) Back | (6 i) At | (7 i v) Set | (8) Clear | (9 n) Rotate | (10 e) SetMinCapacity
 //	               observed = (results (minCap buf))   result = (k v len cap head tail)
 //	               k: 0 nothing returned, 1 value v, 2 explicit panic, 3 run-time error or a call that
 //	               did not return within the time limit (then the rest of the history is not run and
@@ -164,6 +164,8 @@ func dequeOp(q *queue.Deque, op Sx) Sx {
 			q.Clear()
 		case 9:
 			q.Rotate(op.At(1).AsInt())
+		case 10:
+			q.SetMinCapacity(uint(op.At(1).Int64()))
 		default:
 			panic("bad opcode")
 		}
@@ -482,14 +484,16 @@ func main() {
 // ---------------------------------------------------------------- generators
 
 type dgen struct {
-	rng  *Rng
-	ops  []Sx
-	n    int // model length (tracked to aim at boundaries)
-	next int64
+	pushed bool // a push has been issued: the buffer is allocated from then on
+	rng    *Rng
+	ops    []Sx
+	n      int // model length (tracked to aim at boundaries)
+	next   int64
 }
 
 func (g *dgen) add(op Sx) { g.ops = append(g.ops, op) }
 func (g *dgen) push() {
+	g.pushed = true
 	g.next++
 	if g.rng.Chance(1, 40) {
 		g.add(List(Int(int64(g.rng.Intn(2))), List())) // a nil element
@@ -499,6 +503,7 @@ func (g *dgen) push() {
 	g.n++
 }
 func (g *dgen) pushAt(end int) {
+	g.pushed = true
 	g.next++
 	g.add(List(Int(int64(end)), Int(g.next)))
 	g.n++
@@ -570,10 +575,55 @@ func (g *dgen) misc() {
 		if r.Chance(1, 6) {
 			g.add(List(Int(8)))
 			g.n = 0
+		} else if r.Chance(1, 2) {
+			g.setMin()
 		} else {
 			g.add(List(Int(9), Int(g.rot())))
 		}
 	}
+}
+
+// SetMinCapacity(e): mostly exponents around the capacities in play, now and then the shift limits
+func (g *dgen) setMin() {
+	r := g.rng
+	e := int64(r.Intn(11))
+	switch r.Intn(12) {
+	case 0:
+		// 1<<62 only on a deque that has already allocated (the first allocation would try to
+		// make 2^62 slots); 63, 64, 70 select minCapacity
+		if g.pushed {
+			e = r.PickI64(62, 63, 64, 70)
+		} else {
+			e = r.PickI64(63, 64, 70)
+		}
+	case 1, 2:
+		e = 4 + int64(r.Intn(3))
+	}
+	g.add(List(Int(10), Int(e)))
+}
+
+// raise the minimum on a deque filled exactly to its capacity (16, 32, 64 ...), push once more (the
+// buffer must grow with its contents), read everything back, then drain a little
+func (g *dgen) fullThenRaise() {
+	r := g.rng
+	capTarget := r.PickInt(16, 16, 32, 64, 128)
+	for g.n < capTarget {
+		g.pushAt(r.Intn(2))
+	}
+	for g.n > capTarget {
+		g.popAt(r.Intn(2))
+	}
+	e := int64(5 + r.Intn(6))
+	g.add(List(Int(10), Int(e)))
+	g.pushAt(r.Intn(2))
+	g.readAll()
+	for k := r.Intn(6); k > 0; k-- {
+		g.popAt(r.Intn(2))
+	}
+	if r.Bool() {
+		g.add(List(Int(10), Int(int64(r.Intn(6)))))
+	}
+	g.readAll()
 }
 
 // read every element back
@@ -693,6 +743,9 @@ func genDeque(rng *Rng, thorough bool) (string, Sx) {
 		for k := rng.Intn(4); k > 0; k-- {
 			g.misc()
 		}
+		if rng.Chance(1, 6) {
+			g.fullThenRaise()
+		}
 		if rng.Chance(1, 5) { // Clear keeps the capacity: a nearly empty big buffer
 			g.add(List(Int(8)))
 			g.n = 0
@@ -717,6 +770,10 @@ func genDequeSmall(rng *Rng) (string, Sx) {
 		ctor = Ints(int64(rng.PickInt(17, 64, 100)), int64(rng.PickInt(0, 16, 32)))
 	case 1:
 		ctor = Ints(0, int64(rng.PickInt(0, 64)))
+	}
+	if rng.Chance(1, 8) {
+		g.fullThenRaise()
+		return kind, List(Int(0), ctor, ListOf(g.ops))
 	}
 	for k := 2 + rng.Intn(10); k > 0; k-- {
 		switch rng.Intn(6) {
@@ -890,7 +947,7 @@ func gen(a Args, out *Out) {
 		}
 		ops := in.At(2)
 		for i := 0; i < ops.Len(); i++ {
-			out.Count("deque:op:" + []string{"PushBack", "PushFront", "PopFront", "PopBack", "Front", "Back", "At", "Set", "Clear", "Rotate"}[ops.At(i).At(0).AsInt()])
+			out.Count("deque:op:" + []string{"PushBack", "PushFront", "PopFront", "PopBack", "Front", "Back", "At", "Set", "Clear", "Rotate", "SetMinCapacity"}[ops.At(i).At(0).AsInt()])
 		}
 	}
 	ru := rng.Fork()
